@@ -336,6 +336,8 @@ func (vc *VC) load(s *State, l Loc) Val {
 		return vc.loadStruct(s, l.structT, nil, l.base, l.structT)
 	case "elem":
 		return Val{sel(sel(vc.get(s, l.comp), l.base), l.idx), vc.sortOf(l.typ)}
+	case "elemfield":
+		return vc.loadElemField(s, l)
 	case "array":
 		return Val{sel(vc.get(s, l.comp), l.base), vc.sortOf(l.typ)}
 	case "cell":
@@ -381,6 +383,8 @@ func (vc *VC) storeLoc(s *State, l Loc, v Val) {
 	case "elem":
 		m := vc.get(s, l.comp)
 		vc.set(s, l.comp, store(m, l.base, store(sel(m, l.base), l.idx, v.T)))
+	case "elemfield":
+		vc.storeElemField(s, l, v)
 	case "array", "cell":
 		vc.set(s, l.comp, store(vc.get(s, l.comp), l.base, v.T))
 	case "global":
